@@ -420,7 +420,17 @@ class SocketServer:
                     z = await t
                 except Exception as e:
                     z = RemoteException(e)
-                await write_record(writer, req_id, z, encoder=self._encoder)
+                try:
+                    await write_record(writer, req_id, z, encoder=self._encoder)
+                except OSError:
+                    raise
+                except Exception as e:
+                    # The response can not be encoded (e.g. it is not picklable).
+                    # That happens before anything is written. Tell the client; do not
+                    # let it end this task, which serves all the requests of the connection.
+                    await write_record(
+                        writer, req_id, RemoteException(e), encoder=self._encoder
+                    )
                 # TODO: what if client has closed the connection?
 
         trec = asyncio.create_task(_keep_receiving())
@@ -578,7 +588,16 @@ class SocketClient:
                     # the queue should be rarely empty.
                     continue
                 req_id = id(fut)
-                await write_record(writer, req_id, x, encoder=encoder)
+                try:
+                    await write_record(writer, req_id, x, encoder=encoder)
+                except OSError:
+                    raise
+                except Exception as e:
+                    # The payload can not be encoded (e.g. it is not picklable).
+                    # That happens before anything is sent. Fail this request; do not
+                    # let it end this task, which sends all the requests of the connection.
+                    fut.set_exception(e)
+                    continue
                 active[req_id] = fut
 
         async def _keep_receiving(reader):
